@@ -62,6 +62,13 @@ pub enum Case {
         stream: Vec<u8>,
         plan: ReaderPlan,
     },
+    /// the stream ends (naturally) inside the header: the operation must not
+    /// succeed (C16: end of stream at every byte of the header)
+    Cut {
+        op: ROp,
+        stream: Vec<u8>,
+        cut: usize,
+    },
     /// LimitedReader operation sequence (C16)
     Limited {
         data_len: usize,
@@ -546,6 +553,31 @@ pub fn check_read(op: &ROp, stream: &[u8], plan: &ReaderPlan) -> Result<RObs, Fa
     }
 }
 
+/// If the fault-free run on `stream` succeeds having consumed c bytes, the
+/// run on the stream cut to `cut` < c bytes must not succeed: every consumed
+/// byte has to exist (a `seek` over missing bytes is not an excuse).
+/// Returns whether the rule applied.
+pub fn check_cut(op: &ROp, stream: &[u8], cut: usize) -> Result<bool, Fail> {
+    let what = op.kind.name();
+    let skip = usize::from(op.kind.first_byte_is_param());
+    if stream.len() < skip {
+        return Ok(false);
+    }
+    let whole = run_read(op, stream, &ReaderPlan::clean(Chunking::Whole));
+    let consumed = whole.pos as usize + skip;
+    if !matches!(whole.out, ROut::Ok(_)) || cut >= consumed || cut < skip {
+        return Ok(false);
+    }
+    let run = run_read(op, &stream[..cut], &ReaderPlan::clean(Chunking::Whole));
+    match run.out {
+        ROut::Ok(v) => fail(
+            "truncated-stream-accepted",
+            format!("{what}: the operation consumes {consumed} bytes of the intact stream, but on the stream cut to {cut} bytes it still returns Ok({v:?})"),
+        ),
+        _ => Ok(true),
+    }
+}
+
 // ---------------------------------------------------------------- LimitedReader
 
 struct Shared<'a>(Rc<RefCell<SimReader<'a>>>);
@@ -803,6 +835,18 @@ pub fn check_cmp(
 // ---------------------------------------------------------------- C01 memory
 
 pub fn check_mem(op: &ROp, stream: &[u8], plan: &ReaderPlan) -> Result<usize, Fail> {
+    if plan.over_report.is_some() {
+        // a reader that claims more bytes than fit violates the contract of
+        // `Read` without being unsafe: a panic (std's read_exact indexes out
+        // of range) is a fine answer, undefined behaviour is not
+        let prev = crate::runner::set_guarded(true);
+        let r = std::panic::catch_unwind(std::panic::AssertUnwindSafe(|| {
+            let run = run_read(op, stream, plan);
+            summary(&run.out).len()
+        }));
+        crate::runner::set_guarded(prev);
+        return Ok(r.unwrap_or(0));
+    }
     let run = run_read(op, stream, plan);
     // touch every byte the result exposes
     let rendered = summary(&run.out);
@@ -855,6 +899,7 @@ impl Case {
                 }
             }
             Case::Read { op, stream, plan } => check_read(op, stream, plan).map(|_| ()),
+            Case::Cut { op, stream, cut } => check_cut(op, stream, *cut).map(|_| ()),
             Case::Limited {
                 data_len,
                 limit,
@@ -888,6 +933,12 @@ impl Case {
             let j = j
                 .set("chunking", J::s(&p.chunking.name()))
                 .set("inspect", J::Bool(p.inspect));
+            let j = match p.over_report {
+                Some((c, by)) => j
+                    .set("over_report_at_call", J::u(c as u64))
+                    .set("over_report_by", J::u(by as u64)),
+                None => j,
+            };
             match p.fault {
                 Some((k, f)) => j
                     .set("fault_at_call", J::u(k as u64))
@@ -941,6 +992,9 @@ impl Case {
                 rop(base.set("op", J::s("read")), op).set("stream", J::s(&hex(stream))),
                 plan,
             ),
+            Case::Cut { op, stream, cut } => rop(base.set("op", J::s("cut")), op)
+                .set("stream", J::s(&hex(stream)))
+                .set("cut", J::u(*cut as u64)),
             Case::Limited {
                 data_len,
                 limit,
@@ -1014,6 +1068,13 @@ impl Case {
                 },
                 token: j.get("token").and_then(|t| t.as_u64()).unwrap_or(0),
                 inspect: j.get("inspect").and_then(|b| b.as_bool()).unwrap_or(false),
+                over_report: match j.get("over_report_at_call") {
+                    Some(c) => Some((
+                        c.as_u64().ok_or("over_report_at_call")? as usize,
+                        j.u64_of("over_report_by")? as usize,
+                    )),
+                    None => None,
+                },
             })
         };
         let rop = || -> Result<ROp, String> {
@@ -1051,6 +1112,11 @@ impl Case {
                 op: rop()?,
                 stream: stream()?,
                 plan: rplan()?,
+            }),
+            "cut" => Ok(Case::Cut {
+                op: rop()?,
+                stream: stream()?,
+                cut: j.u64_of("cut")? as usize,
             }),
             "limited" => {
                 let mut ops = Vec::new();
@@ -1240,6 +1306,7 @@ impl Case {
                     }
                 }
             }
+            Case::Cut { .. } => {}
             Case::Limited {
                 data_len,
                 limit,
